@@ -333,6 +333,8 @@ class MediaOracle:
             subj_tags.append("first-decode-time!=0")
         if is_last and drift:
             subj_tags.append("loop-last+drift")
+        if stream in getattr(self, "alt_refs", ()):
+            subj_tags.append("alt-ref")      # regime: the stream's timing reference is not its usual (video) file
         subj = "/".join([ref.kind, ctype] + (["+".join(subj_tags)] if subj_tags else []))
         if ref.kind == "time":
             sim.check("c02-time-tfdt")
